@@ -1,9 +1,10 @@
 """C20: the check procedure (corpus, exhaustive DFS with signals, a signal at every position, random cases).
 Projection, monitors and generators are in vlib/sigcheck.py."""
 import json
+import os
 import re
 
-from vlib import sched
+from vlib import sched, sigreal
 from vlib.sigcheck import (PLANS, SGN, SIGINT, SIGTSTP, TRUSTED, accept_all, analyse, explore_sig, gen_case, offenders, pack,
                            plan_signals, project_sig)
 
@@ -124,7 +125,9 @@ def run(ctx, PROPS, LEVEL):
                    "or interleaved at random; (d) random: random hosts (delayed/refused connects, delayed output, exit "
                    "codes), N<=8 (quick) / N<=24 (thorough), fanout 1..N+1, strategies uniform/PCT/starve/eager "
                    "dispatcher, scheduling granularity from protocol-only to every wrapped call, random delivery "
-                   "steps.  Distinct = distinct projected event trace; non-trivial = the signals thread handled at "
+                   "steps; (e) thorough only, supporting: the scratch-built pdsh binary with -R exec and a helper command, "
+                   "signalled with kill(2) (-b ^C, ^C, ^C^C, ^C^Z) at random delays, judged on exit status, stderr and the "
+                   "helper's log.  Distinct = distinct projected event trace; non-trivial = the signals thread handled at "
                    "least one signal"}
     dist = {"plans": {}, "episodes": {}, "status": {}, "rejects": 0, "out_of_domain": 0, "dfs": [], "positions": [],
             "yield": {}, "N": {}, "batch": {"0": 0, "1": 0}}
@@ -255,7 +258,7 @@ def run(ctx, PROPS, LEVEL):
     plans = [("int", 0), ("int", 1), ("int-int", 0), ("int-tstp", 0), ("tstp", 0)]
     if not ctx.quick():
         plans += [("int-int", 1), ("int-tstp-int", 0)]
-    nseeds = 1 if ctx.quick() else 3
+    nseeds = 1 if ctx.quick() else 2
     for name, skel in small_configs(ctx.quick()):
         if enough():
             break
@@ -305,7 +308,7 @@ def run(ctx, PROPS, LEVEL):
         ctx.log("every position %s: %d runs" % (name, len(cases)))
 
     # (d) random cases, random delivery steps
-    nrand = 700 if ctx.quick() else 30000
+    nrand = 700 if ctx.quick() else 20000
     nmax = 8 if ctx.quick() else 24
     CH = 700 if ctx.quick() else 1500
     done = 0
@@ -331,6 +334,30 @@ def run(ctx, PROPS, LEVEL):
         ctx.log("random cases: %d/%d" % (done, nrand))
     if enough():
         ctx.log("enough offending runs; exploration stopped early")
+
+    # (e) supporting: the scratch-built pdsh binary with -R exec, signalled by kill(2) at random delays (thorough only)
+    if not ctx.quick() and not enough():
+        repo = ctx.repo_build()
+        helper = sigreal.build_helper(ctx)
+        if repo and helper:
+            res = sigreal.run_all(ctx, os.path.join(repo, "src", "pdsh", "pdsh"), helper, 16)
+            dist["real"] = {"runs": len(res), "inconclusive": 0, "kinds": {}}
+            for o in res:
+                cov["evaluations"] += 1
+                offs, conclusive = sigreal.judge(o)
+                dist["real"]["kinds"][o["kind"]] = dist["real"]["kinds"].get(o["kind"], 0) + 1
+                if not conclusive:
+                    dist["real"]["inconclusive"] += 1
+                for sig, what in offs:
+                    newcount[0] += 1
+                    ctx.offender(sig, what, {"argv": "pdsh %s-R exec -f %d -w h[0-%d] sig_helper <log> %%h %s" %
+                                             ("-b " if o["kind"] == "batch-int" else "", sigreal.FAN, sigreal.NH - 1,
+                                              sigreal.SECS),
+                                             "signals": o["kind"], "delay_s": o["delay"], "gap_s": o["gap"], "exit": o["rc"],
+                                             "stderr": o["stderr"][-600:], "stdout": o["stdout"][-300:], "log": o["log"]})
+            ctx.log("real pdsh -R exec: %d runs, %d inconclusive" % (len(res), dist["real"]["inconclusive"]))
+        elif repo:
+            ctx.notes.append("sig_helper did not compile; real-binary runs skipped")
 
     pending.sort(key=lambda t: t[0])
     seen = {}
